@@ -1,7 +1,7 @@
 (* Crash cuts, part 2: every prefix of the effects of an ingestion, of a flush and of a recovery,
    applied to the directory of a reachable state at rest, recovers to the acknowledged content (or,
    for an ingestion, to that plus the request in flight, whole) - except the cuts at which the temp
-   file of a log segment is incomplete (finding F8: RHang). *)
+   file of a log segment is incomplete (finding F8: RFail). *)
 From Coq Require Import NArith ZArith List Bool Lia.
 From LV Require Import Model.TableSM Model.Catalogue Model.WalSM Model.CrashSM
      Proofs.TableSM Proofs.WalSMBase Proofs.WalSM Proofs.WalSMLog Proofs.CrashSM.
@@ -50,7 +50,7 @@ Theorem ingest_cuts : forall c b bytes s s' k,
   Inv s -> ingest c b bytes s = Val s' ->
   let full := match rev (acked s') with x :: _ => x | [] => [] end in
   match recover_c c (cut (at_rest s) (ingest_effects (next_wal s) bytes full) k) with
-  | RHang => k = 1%nat
+  | RFail => k = 1%nat
   | ROut r => k <> 1%nat /\ good_recovery r (content s) (content s')
   end.
 Proof.
@@ -159,7 +159,7 @@ Qed.
 (* recovery on a frame-A directory gives the content of [s] *)
 Lemma recover_frame_a : forall c s d, Inv s -> frame_a s d ->
   match recover_c c d with
-  | RHang => False
+  | RFail => False
   | ROut r => good_recovery r (content s) (content s)
   end.
 Proof.
